@@ -80,6 +80,11 @@ Theorem C10_class4_witness_holds : known_C10 w4 = [] /\ spec_C10 w4 (run_C10 w4)
 Proof. exact repaired_4. Qed.
 Print Assumptions C10_class4_witness_holds.
 
+(* a peer that skipped a version (administrator chain) and a burst of additions: both pass the oracle *)
+Example C10_jump_and_burst_pass : spec_C10 wj (run_C10 wj) = true /\ hd 0 (run_C10 wj) = 1 /\ spec_C10 wb (run_C10 wb) = true.
+Proof. exact jump_and_burst_pass. Qed.
+Print Assumptions C10_jump_and_burst_pass.
+
 Example C10_nonvacuous :
   known_C10 w0 = [] /\ spec_C10 w0 (run_C10 w0) = true /\ all_accepted (case_steps w0).
 Proof. exact nonvacuous_0. Qed.
